@@ -2,6 +2,7 @@
    Mirrors (src/highdicom, state after the D5 / D39 fixes):
      image.py  _Image._standardize_frame_index, get_raw_frame (native byte range),
                get_stored_frame / get_stored_frames / pixel_array (path selection)
+               get_frames with every transform switched off (st_frames / lz_frames; state after the D108 fix)
      io.py     ImageFileReader._read_metadata (native offset table, choice of
                extended / basic / rebuilt offset table), _get_bot, _build_bot,
                _read_eot (length check), read_frame_raw
